@@ -292,4 +292,30 @@ Proof.
     destruct R2 as (st' & Hs & _). exists st'. exact Hs.
 Qed.
 
+(* delivery in every shape: if the concatenated payload is within the limit and - when compressed - inflates to `d`
+   within the limit, and `d` passes the text check, then the message is delivered (after the control callbacks), once *)
+Corollary reader_fragmented_delivered c st fuel comp op lf0 k0 p0 cs0 mids lfl kl pl d :
+  limit_ok c -> cf_init W st = false ->
+  (op = 1 \/ op = 2) -> (comp = true -> r_pmd c = true) ->
+  Forall (ctl_ok (scfg_of c)) cs0 -> Forall (fun m => Forall (ctl_ok (scfg_of c)) (midw_ctls m)) mids ->
+  let wire := message_wire (r_server c) comp op lf0 k0 p0 cs0 mids lfl kl pl in
+  let payload := p0 ++ concat (map midw_payload mids) ++ pl in
+  Forall sendable wire -> (Z.of_nat (length payload) <= r_limit c)%Z -> (length (enc_stream wire) < fuel)%nat ->
+  (if comp then inflate (wdict (r_dps W st)) (payload ++ inflate_tail) (r_limit c) = Some d else d = payload) ->
+  (r_utf8 c && (op =? 1) && negb (utf8_valid d)) = false ->
+  exists st', read_stream fuel c st (enc_stream wire)
+              = (map ev_map (map ctl_event (cs0 ++ flat_map midw_ctls mids)) ++ [EvMsg op d], OMore W st' false).
+Proof.
+  intros Hc Hinit Hop Hcomp Hc0 Hcm wire payload Hsend Hl Hfuel Hd Hu.
+  pose proof (reader_fragmented_message c st fuel comp op lf0 k0 p0 cs0 mids lfl kl pl Hc Hinit Hop Hcomp Hc0 Hcm Hsend Hl Hfuel) as R.
+  fold wire payload in R. unfold Rfc6455Recv.complete in R. cbn [scfg_of s_limit s_utf8] in R.
+  destruct comp.
+  - rewrite Hd, Hu in R. destruct R as (R1 & st' & R2 & _). cbn [fst snd as_run] in R1, R2.
+    exists st'. destruct (read_stream fuel c st (enc_stream wire)) as [evs o]. cbn [fst snd] in *. subst.
+    rewrite map_app. reflexivity.
+  - subst d. rewrite Hu in R. destruct R as (R1 & st' & R2 & _). cbn [fst snd as_run] in R1, R2.
+    exists st'. destruct (read_stream fuel c st (enc_stream wire)) as [evs o]. cbn [fst snd] in *. subst.
+    rewrite map_app. reflexivity.
+Qed.
+
 End FragReader.
